@@ -37,7 +37,7 @@ def values_table(c, nodes=None):
 
 
 def one_gate_circuits(max_arity=3, types=None):
-    names = ["a", "b", "c", "d", "e"]
+    names = ["a", "b", "c", "d", "e", "f", "h", "i"]
     for t in types or (GATES2 + ["buf", "not"]):
         ar = [1] if t in ("buf", "not") else range(1, max_arity + 1)
         for k in ar:
@@ -74,3 +74,24 @@ def deep_circuits():
     yield "in-is-out", build({"a": ("input", []), "b": ("input", []), "g": ("and", ["a", "b"])}, outputs=["a", "g"])
     yield "fanout", build({"a": ("input", []), "b": ("input", []), "s": ("xor", ["a", "b"]), "l1": ("not", ["s"]), "l2": ("buf", ["s"]), "l3": ("and", ["s", "a"]), "l4": ("or", ["s", "b"]),
                             "l5": ("nand", ["s", "l1"]), "o": ("xnor", ["l1", "l2", "l3", "l4", "l5"])}, outputs=["o", "l4"])
+
+
+def reinserted(c, mode="reversed"):
+    """The same circuit with its nodes (and edges) inserted in another order - node iteration order is insertion order, and
+    code that assumes drivers come before their loads only works on circuits built sources-first."""
+    from .refmodel import RefCircuit
+
+    names = list(c.graph._node)
+    if mode == "reversed":
+        order = names[::-1]
+    elif mode == "sinks-first":
+        order = list(c.graph.topo())[::-1] if c.graph.is_dag() else names[::-1]
+    else:
+        raise ValueError(mode)
+    d = RefCircuit(name=c.name)
+    for n in order:
+        d.graph.add_node(n, **dict(c.graph._node[n]))
+    for u, v in list(c.graph.edges)[::-1]:
+        d.graph.add_edge(u, v)
+    d.blackboxes.update(c.blackboxes)
+    return d
